@@ -58,6 +58,12 @@ Theorem C09_deleted_active_elements_inert : forall old new ops ic dc body,
   forallb (inert_ok false false false) (d_body v) = true /\ forallb (inert_ok false false false) (d_head v) = true.
 Proof. exact combined_view_inert. Qed.
 
+(* inside embedded SVG / MathML the deleted script or style is moved out of the graphic (a <template> there is no HTML
+   template): nothing is dropped, each one follows the graphic, wrapped, in document order *)
+Theorem C09_deleted_foreign_scripts_are_moved_not_dropped : forall name a v cs u, is_foreign name = true ->
+  exists rest, deactivate u (SEl name a v cs) = rest ++ map inert_wrap (deleted_actives u (SEl name a v cs)).
+Proof. exact deactivate_foreign_keeps_actives. Qed.
+
 Theorem C09_tables :
   forallb (fun n => mem_str (s2l n) Tables.undiffable_content_tags) ["script"; "style"; "svg"; "template"; "textarea"; "select"]%string = true /\
   Tables.active_elements = [s2l "script"; s2l "style"].
